@@ -731,10 +731,12 @@ class SyncState:  # pylint: disable=too-many-instance-attributes, too-many-publi
                     ent = SyncEntry(self, None, (eid, ent_ser))
                     for side in [LOCAL, REMOTE]:
                         path, oid = ent[side].path, ent[side].oid
-                        if path not in self._paths[side]:
-                            self._paths[side][path] = {}
-                        self._paths[side][path][oid] = ent
-                        self._oids[side][oid] = ent
+                        if oid is not None:
+                            # a side without an id is not indexed in the live state either
+                            if path not in self._paths[side]:
+                                self._paths[side][path] = {}
+                            self._paths[side][path][oid] = ent
+                            self._oids[side][oid] = ent
                         if ent[side].changed:
                             self._changeset_storage.add(ent)
                 except Exception as e:
